@@ -50,13 +50,31 @@ pub fn epoch() -> DateTime<Utc> {
     Utc.with_ymd_and_hms(2024, 1, 1, 0, 0, 0).unwrap()
 }
 
-/// Simulated exchange time: epoch + ms.
+thread_local! {
+    /// microseconds per simulated time unit (1000 = the unit is a millisecond)
+    static TICK_US: std::cell::Cell<i64> = const { std::cell::Cell::new(1000) };
+}
+
+/// Makes `ts` / `ms_of` count in units of `us` microseconds on this thread until dropped
+/// (exchange timestamps closer together than a millisecond).
+pub struct TickGuard(i64);
+pub fn set_tick_us(us: i64) -> TickGuard {
+    let prev = TICK_US.with(|c| c.replace(us.max(1)));
+    TickGuard(prev)
+}
+impl Drop for TickGuard {
+    fn drop(&mut self) {
+        TICK_US.with(|c| c.set(self.0));
+    }
+}
+
+/// Simulated exchange time: epoch + t time units (milliseconds unless `set_tick_us` says otherwise).
 pub fn ts(ms: i64) -> DateTime<Utc> {
-    epoch() + chrono::TimeDelta::milliseconds(ms)
+    epoch() + chrono::TimeDelta::microseconds(ms * TICK_US.with(|c| c.get()))
 }
 
 pub fn ms_of(t: DateTime<Utc>) -> i64 {
-    (t - epoch()).num_milliseconds()
+    (t - epoch()).num_microseconds().unwrap_or(i64::MAX).div_euclid(TICK_US.with(|c| c.get()))
 }
 
 pub fn dec(n: i64) -> Decimal {
